@@ -71,6 +71,7 @@ def run(ctx):
     for s in fixed:
         for v in gen_value.zoo():
             cases.append(valcorr.ValCase(s, v, "zoo"))
+    cases += valcases.list_form_value_cases(ctx)
     for c in cases:
         valcorr.run_real(c)
         valcorr.prepare(c)
